@@ -82,6 +82,12 @@ Proof.
   - eapply IH; eauto.
 Qed.
 
+Lemma nodup_app_l : forall (a b : list Z), NoDup (a ++ b) -> NoDup a.
+Proof.
+  induction a as [|x a IH]; simpl; intros b H; [constructor|]. inversion H as [|? ? N1 N2]; subst.
+  constructor; [intro I; apply N1; apply in_or_app; auto | eapply IH; eauto].
+Qed.
+
 (* ---- "found" lists: distinct ids of unclaimed block comments of a token list --------------------- *)
 Definition found_in (w : list tok) (l : list Z) : Prop :=
   NoDup l /\ forall c, In c l -> exists t, In t w /\ t_id t = c /\ is_comment t = true /\ t_claimed t = false.
@@ -165,4 +171,322 @@ Proof.
       apply andb_prop in C. destruct C as [C C3]. apply andb_prop in C. destruct C as [C1 C2].
       apply negb_true_iff in C3. apply found_in_cons; auto. eapply IH; eauto.
     + eapply found_in_incl; [eapply IH; eauto | intros; right; auto].
+Qed.
+
+(* ---- _find_inner over items that lie in store order ------------------------------------------- *)
+Lemma after_suffix : forall p w i a x b,
+  NoDup (ids (p ++ w)) -> split_at i w = Some (a, x :: b) -> after (p ++ w) i = b.
+Proof.
+  intros p w i a x b ND S. apply split_at_spec in S. destruct S as [Hw [x0 [r0 [E I]]]]. inversion E; subst x0 r0.
+  subst w i. unfold after. rewrite app_assoc in *. rewrite split_at_unique; auto.
+  eapply nodup_mid; eauto.
+Qed.
+
+Lemma comments_of_app : forall a b, comments_of (a ++ b) = comments_of a ++ comments_of b.
+Proof. intros. unfold comments_of. rewrite filter_app, map_app. reflexivity. Qed.
+
+Lemma comments_of_true : forall l, comments_of (map (fun c : Z => (true, c)) l) = l.
+Proof. induction l as [|x l IH]; simpl; auto. unfold comments_of in *. simpl. rewrite IH. reflexivity. Qed.
+
+Lemma count_cons_item : forall c it l,
+  count_z c (comments_of (oitem_of it :: l)) =
+  ((if it_comment it then (if Z.eqb (it_ref it) c then 1 else 0) else 0) + count_z c (comments_of l))%nat.
+Proof.
+  intros. unfold comments_of, oitem_of. simpl. destruct (it_comment it); simpl; reflexivity.
+Qed.
+
+Lemma find_inner_spec : forall items d p w s l s' rem,
+  NoDup (ids d) -> d = p ++ w -> leftover w items = Some rem -> find_inner d w items s = (l, s') ->
+  exists F consumed, w = consumed ++ rem /\ found_in consumed F /\
+    (forall c, count_z c (comments_of l) = count_z c F + count_z c (old_comments items))%nat.
+Proof.
+  induction items as [|it rest IH]; simpl; intros d p w s l s' rem ND Hd L H.
+  - inversion L; inversion H; subst. exists [], []. split; [reflexivity|]. split; [apply found_in_nil|].
+    intros; reflexivity.
+  - destruct (split_at (it_first it) w) as [[g ff]|] eqn:S1; [|discriminate].
+    destruct (split_at (it_last it) ff) as [[x ya]|] eqn:S2; [|discriminate].
+    destruct ya as [|y a]; [discriminate|].
+    destruct (scan_until (it_first it) w s) as [found s1] eqn:SC.
+    destruct (find_inner d (after d (it_last it)) rest
+                (if it_comment it then cs_discard s1 (it_ref it) else s1)) as [l0 s3] eqn:FI.
+    inversion H; subst l s'. clear H.
+    pose proof (split_at_spec _ _ _ _ S1) as [Hw _].
+    pose proof (split_at_spec _ _ _ _ S2) as [Hff _].
+    assert (NDw : NoDup (ids w)) by (rewrite Hd in ND; eapply nodup_tail; eauto).
+    assert (A : after d (it_last it) = a).
+    { rewrite Hd, Hw, app_assoc. eapply after_suffix; [rewrite <- app_assoc, <- Hw, <- Hd; exact ND | exact S2]. }
+    rewrite A in FI.
+    assert (Ew : w = (g ++ (x ++ [y])) ++ a) by (rewrite Hw, Hff, <- ?app_assoc; simpl; reflexivity).
+    assert (Hd' : d = (p ++ g ++ x ++ [y]) ++ a) by (rewrite Hd, Ew, <- ?app_assoc; simpl; reflexivity).
+    destruct (IH d (p ++ g ++ x ++ [y]) a _ l0 s3 rem ND Hd' L FI) as [F0 [cons0 [Ha [FI0 CNT]]]].
+    exists (found ++ F0), ((g ++ (x ++ [y])) ++ cons0). split; [|split].
+    + rewrite Ew, Ha, <- ?app_assoc. reflexivity.
+    + assert (NDall : NoDup (ids ((g ++ (x ++ [y])) ++ cons0))).
+      { assert (E : w = ((g ++ (x ++ [y])) ++ cons0) ++ rem) by (rewrite Ew, Ha, <- ?app_assoc; reflexivity).
+        rewrite E in NDw. unfold ids in *. rewrite map_app in NDw. apply nodup_app_l in NDw. exact NDw. }
+      apply found_in_app; auto.
+      eapply found_in_incl; [eapply scan_until_spec; eauto | intros; apply in_or_app; left; auto].
+    + intros c. specialize (CNT c). rewrite comments_of_app, comments_of_true, !count_z_app.
+      unfold old_comments in *. simpl map. rewrite !count_cons_item.
+      destruct (it_comment it); destruct (Z.eqb (it_ref it) c); lia.
+Qed.
+
+Lemma rep_last_cons : forall ph it rest, rest <> [] -> rep_last ph (it :: rest) = rep_last ph rest.
+Proof.
+  intros ph it rest H. unfold rep_last. simpl. destruct (rev rest) as [|z zs] eqn:E.
+  - exfalso. apply H. rewrite <- (rev_involutive rest), E. reflexivity.
+  - reflexivity.
+Qed.
+
+Lemma leftover_after : forall items ph d p w rem,
+  NoDup (ids d) -> d = p ++ w -> leftover w items = Some rem -> items <> [] ->
+  after d (rep_last ph items) = rem.
+Proof.
+  induction items as [|it rest IH]; simpl; intros ph d p w rem ND Hd L NE; [contradiction|].
+  destruct (split_at (it_first it) w) as [[g ff]|] eqn:S1; [|discriminate].
+  destruct (split_at (it_last it) ff) as [[x ya]|] eqn:S2; [|discriminate].
+  destruct ya as [|y a]; [discriminate|].
+  pose proof (split_at_spec _ _ _ _ S1) as [Hw _].
+  pose proof (split_at_spec _ _ _ _ S2) as [Hff _].
+  assert (A : after d (it_last it) = a).
+  { rewrite Hd, Hw, app_assoc. eapply after_suffix; [rewrite <- app_assoc, <- Hw, <- Hd; exact ND | exact S2]. }
+  destruct rest as [|it2 r2].
+  - simpl in L. inversion L; subst rem. unfold rep_last. simpl. exact A.
+  - rewrite rep_last_cons by discriminate.
+    apply (IH ph d (p ++ g ++ x ++ [y]) a rem); auto; [|discriminate].
+    rewrite Hd, Hw, Hff, <- ?app_assoc. simpl. reflexivity.
+Qed.
+
+Lemma shift_ignored_perm : forall d first last bw d', shift_ignored d first last bw = Some d' -> Permutation d' d.
+Proof.
+  intros d first last bw d' H. unfold shift_ignored, iter_range, splice in H.
+  destruct (split_at first d) as [[a mb]|] eqn:S1; [|discriminate].
+  destruct (split_at last mb) as [[m0 lb]|] eqn:S2; [|inversion H; auto].
+  destruct lb as [|l b']; [inversion H; auto|].
+  destruct (filter is_ph (m0 ++ [l])) as [|p0 pr] eqn:F; [inversion H; auto|].
+  rewrite <- F in H. inversion H; subst d'. clear H.
+  apply split_at_spec in S1. destruct S1 as [Hd _].
+  apply split_at_spec in S2. destruct S2 as [Hm _].
+  assert (E : d = a ++ (m0 ++ [l]) ++ b') by (rewrite Hd, Hm, <- app_assoc; reflexivity).
+  rewrite E. apply Permutation_app_head, Permutation_app_tail.
+  destruct bw; [apply partition_perm | eapply Permutation_trans; [apply Permutation_app_comm | apply partition_perm]].
+Qed.
+
+(* everything _CommentClaimer.claim collects, and what it returns *)
+Lemma claimer_claim_cases : forall d ph items mf ml flt r d',
+  NoDup (ids d) -> items_ordered_b d ph items = true ->
+  claimer_claim d ph items mf ml flt = (r, d') ->
+  (Permutation d' d /\ exists e, r = Err e) \/
+  (exists found its d2 ret, r = Ok (ret, its) /\ Permutation d2 d /\ d' = mark (comments_of its) true d2 /\
+     found_in d found /\
+     forall c, count_z c (comments_of its) = (count_z c found + count_z c (old_comments items))%nat).
+Proof.
+  intros d ph items mf ml flt r d' ND ORD H. unfold claimer_claim in H. unfold items_ordered_b in ORD.
+  destruct (leftover (from_incl d ph) items) as [rem|] eqn:L; [|discriminate].
+  unfold walk in H. unfold from_incl in L, H.
+  destruct (split_at ph d) as [[pre phw]|] eqn:SP; [|inversion H; left; split; eauto].
+  destruct phw as [|pht w1]; [inversion H; left; split; eauto|].
+  pose proof (split_at_spec _ _ _ _ SP) as [Hd _].
+  destruct (split_at (rep_last ph items) d) as [[a0 sb]|] eqn:SL; [|inversion H; left; split; eauto].
+  destruct sb as [|s0 wa]; [inversion H; left; split; eauto|].
+  destruct (find_outer ph (rev pre) mf flt) as [cb_rev s1] eqn:FO1.
+  destruct (find_inner d (pht :: w1) items s1) as [inner s2] eqn:FI.
+  destruct (find_outer (rep_last ph items) wa ml s2) as [ca s3] eqn:FO2.
+  destruct (cs_nonempty s3); [inversion H; left; split; eauto|].
+  destruct (match rev cb_rev with c0 :: _ => shift_ignored d c0 ph true | [] => Some d end) as [d1|] eqn:S1;
+    [|inversion H; left; split; eauto].
+  assert (P1 : Permutation d1 d).
+  { destruct (rev cb_rev); [inversion S1; auto | eapply shift_ignored_perm; eauto]. }
+  destruct (match rev ca, wa with
+            | cl :: _, f :: _ => shift_ignored d1 (t_id f) cl false
+            | _ :: _, [] => None
+            | [], _ => Some d1 end) as [d2|] eqn:S2; [|inversion H; subst; left; split; eauto].
+  assert (P2 : Permutation d2 d1).
+  { destruct (rev ca); [inversion S2; auto|]. destruct wa; [discriminate | eapply shift_ignored_perm; eauto]. }
+  inversion H; subst r d'. clear H. right.
+  (* geometry *)
+  assert (NDpre : NoDup (ids (rev pre))).
+  { unfold ids. rewrite map_rev. apply NoDup_rev. rewrite Hd in ND. unfold ids in ND. rewrite map_app in ND.
+    apply nodup_app_l in ND. exact ND. }
+  pose proof (find_outer_spec _ _ _ _ _ _ FO1 NDpre) as Fb. apply found_in_rev in Fb.
+  destruct (find_inner_spec items d pre (pht :: w1) s1 inner s2 rem ND Hd L FI) as [F [cons [Hw [Fi CNT]]]].
+  assert (WA : forall t, In t wa -> In t rem).
+  { destruct items as [|it0 rest0] eqn:EI.
+    - simpl in L. inversion L; subst rem. unfold rep_last in SL. simpl in SL. rewrite SP in SL.
+      inversion SL; subst. intros; right; auto.
+    - rewrite <- EI in *. assert (NE : items <> []) by (rewrite EI; discriminate).
+      pose proof (leftover_after items ph d pre (pht :: w1) rem ND Hd L NE) as A.
+      unfold after in A. rewrite SL in A. subst rem. auto. }
+  assert (NDwa : NoDup (ids wa)).
+  { apply split_at_spec in SL. destruct SL as [E _]. rewrite E in ND.
+    apply nodup_tail in ND. apply nodup_ids_cons in ND. apply ND. }
+  pose proof (find_outer_spec _ _ _ _ _ _ FO2 NDwa) as Fa.
+  assert (Fa' : found_in rem ca) by (eapply found_in_incl; eauto).
+  assert (NDw : NoDup (ids (cons ++ rem))).
+  { rewrite <- Hw. rewrite Hd in ND. eapply nodup_tail; eauto. }
+  assert (Fall : found_in d (rev cb_rev ++ F ++ ca)).
+  { rewrite Hd, Hw. apply found_in_app; [exact Fb | | rewrite <- Hw, <- Hd; exact ND].
+    apply found_in_app; auto. }
+  exists (rev cb_rev ++ F ++ ca),
+         (map (fun c => (true, c)) (rev cb_rev) ++ inner ++ map (fun c => (true, c)) ca), d2,
+         (comments_of (map (fun c => (true, c)) (rev cb_rev) ++ inner ++ map (fun c => (true, c)) ca)).
+  split; [reflexivity|]. split; [eapply Permutation_trans; eauto|]. split; [apply claim_all_mark|].
+  split; [exact Fall|].
+  intros c. rewrite !comments_of_app, !comments_of_true, !count_z_app. specialize (CNT c). lia.
+Qed.
+
+(* ---- the invariant through the interleaving calls ------------------------------------------------ *)
+Lemma set_flag_claimed_id : forall t, t_claimed t = true -> set_flag true t = t.
+Proof. intros [i k x c] H; simpl in *; subst; reflexivity. Qed.
+
+Lemma tget_tset_rep_small : forall tb r l, slots_small tb -> slots_small (tset tb (SRep r) l).
+Proof. intros tb r l H n. rewrite !tget_tset. simpl. exact (H n). Qed.
+
+Lemma claimer_step_inv : forall d tb r ph items mf ml flt,
+  Inv (d, tb) -> op_ok (d, tb) (OClaimInter r ph items mf ml flt) = true ->
+  Inv (cstep (d, tb) (OClaimInter r ph items mf ml flt)).
+Proof.
+  intros d tb r ph items mf ml flt [ND [OI SS]] OK. simpl in ND, OI, SS, OK.
+  apply andb_prop in OK. destruct OK as [EQ ORD]. apply list_eqb_Z in EQ.
+  simpl. destruct (claimer_claim d ph items mf ml flt) as [res d'] eqn:H.
+  destruct (claimer_claim_cases d ph items mf ml flt res d' ND ORD H)
+    as [[P [e E]]|[found [its [d2 [ret [E [P [Ed' [FI CNT]]]]]]]]]; subst res.
+  - (* refused: the flags are untouched, the tokens permuted at most *)
+    unfold Inv; simpl. split; [|split; auto].
+    + unfold ids. eapply Permutation_NoDup; [apply Permutation_sym, Permutation_map; exact P | exact ND].
+    + intros t I C. apply OI; auto. eapply Permutation_in; eauto.
+  - subst d'. unfold Inv; simpl. split; [|split].
+    + rewrite mark_ids. unfold ids. eapply Permutation_NoDup; [apply Permutation_sym, Permutation_map; exact P | exact ND].
+    + intros t' I' C'. apply in_mark in I'. destruct I' as [t0 [I0 E0]].
+      assert (I0d : In t0 d) by (eapply Permutation_in; eauto).
+      assert (ID : t_id t' = t_id t0) by (subst t'; destruct (memz (t_id t0) (comments_of its)); reflexivity).
+      assert (C0 : is_comment t0 = true) by (subst t'; destruct (memz (t_id t0) (comments_of its)); exact C').
+      rewrite ID.
+      pose proof (owners_tset (t_id t0) tb (SRep r) (comments_of its)) as O. rewrite <- EQ in O.
+      specialize (CNT (t_id t0)). destruct (OI t0 I0d C0) as [A B].
+      pose proof (owners_ge_tget (t_id t0) tb (SRep r)) as GE. rewrite <- EQ in GE.
+      destruct FI as [NDf Hf].
+      pose proof (count_z_nodup (t_id t0) found NDf) as LE.
+      destruct (count_z (t_id t0) found) as [|k] eqn:K.
+      * (* not collected now: nothing changes for it *)
+        assert (OW : owners (t_id t0) (tset tb (SRep r) (comments_of its)) = owners (t_id t0) tb) by lia.
+        rewrite OW. split; [exact A|].
+        destruct (memz (t_id t0) (comments_of its)) eqn:M.
+        -- apply memz_in in M. apply count_z_in in M.
+           assert (owners (t_id t0) tb = 1)%nat by lia.
+           assert (CL : t_claimed t0 = true) by (apply B; auto).
+           subst t'. rewrite set_flag_claimed_id by exact CL. exact B.
+        -- subst t'. exact B.
+      * (* collected: it was an unclaimed comment without owner *)
+        assert (IN : In (t_id t0) found) by (apply count_z_in; lia).
+        destruct (Hf _ IN) as [t1 [I1 [E1 [C1 U1]]]].
+        assert (t1 = t0) by (apply (nodup_id_inj d); auto). subst t1.
+        assert (Z0 : owners (t_id t0) tb = 0%nat).
+        { destruct B as [_ B2]. destruct (Nat.eq_dec (owners (t_id t0) tb) 1) as [K1|K1];
+            [specialize (B2 K1); congruence | lia]. }
+        assert (M : memz (t_id t0) (comments_of its) = true) by (apply memz_in, count_z_in; lia).
+        rewrite M in E0. subst t'. simpl. split; [lia|]. split; intros; auto; lia.
+    + apply tget_tset_rep_small; auto.
+Qed.
+
+Lemma unclaim_scan_count : forall items s all kept un s',
+  unclaim_scan items s all = (kept, un, s') ->
+  forall c, (count_z c (old_comments items) = count_z c (comments_of kept) + count_z c un)%nat.
+Proof.
+  induction items as [|it rest IH]; simpl; intros s all kept un s' H c.
+  - inversion H; subst. reflexivity.
+  - unfold old_comments in *. simpl map. rewrite count_cons_item.
+    destruct (it_comment it) eqn:IC; simpl in H.
+    + destruct (negb all && negb (cs_mem s (it_ref it))).
+      * destruct (unclaim_scan rest s all) as [[k u] s0] eqn:E. inversion H; subst.
+        rewrite count_cons_item, IC. specialize (IH _ _ _ _ _ E c). lia.
+      * destruct (unclaim_scan rest (if all then s else cs_discard s (it_ref it)) all) as [[k u] s0] eqn:E.
+        inversion H; subst. specialize (IH _ _ _ _ _ E c). simpl. lia.
+    + destruct (unclaim_scan rest s all) as [[k u] s0] eqn:E. inversion H; subst.
+      rewrite count_cons_item, IC. specialize (IH _ _ _ _ _ E c). lia.
+Qed.
+
+Lemma unclaim_inter_step_inv : forall d tb r items flt,
+  Inv (d, tb) -> op_ok (d, tb) (OUnclaimInter r items flt) = true ->
+  Inv (cstep (d, tb) (OUnclaimInter r items flt)).
+Proof.
+  intros d tb r items flt [ND [OI SS]] OK. simpl in ND, OI, SS, OK. apply list_eqb_Z in OK.
+  simpl. unfold unclaim_inter.
+  destruct (unclaim_scan items flt match flt with None => true | Some _ => false end) as [[kept un] s'] eqn:SC.
+  pose proof (unclaim_scan_count _ _ _ _ _ _ SC) as CNT.
+  destruct (negb match flt with None => true | Some _ => false end && cs_nonempty s').
+  - unfold Inv; simpl; auto.
+  - rewrite unclaim_all_mark. unfold Inv; simpl. split; [rewrite mark_ids; exact ND|]. split.
+    + intros t' I' C'. apply in_mark in I'. destruct I' as [t0 [I0 E0]].
+      assert (ID : t_id t' = t_id t0) by (subst t'; destruct (memz (t_id t0) un); reflexivity).
+      assert (C0 : is_comment t0 = true) by (subst t'; destruct (memz (t_id t0) un); exact C').
+      rewrite ID.
+      pose proof (owners_tset (t_id t0) tb (SRep r) (comments_of kept)) as O. rewrite <- OK in O.
+      specialize (CNT (t_id t0)). destruct (OI t0 I0 C0) as [A B].
+      pose proof (owners_ge_tget (t_id t0) tb (SRep r)) as GE. rewrite <- OK in GE.
+      destruct (memz (t_id t0) un) eqn:M.
+      * apply memz_in in M. apply count_z_in in M. subst t'. simpl.
+        split; [lia|]. split; intros X; [discriminate | lia].
+      * assert (count_z (t_id t0) un = 0)%nat.
+        { destruct (count_z (t_id t0) un) eqn:K; auto.
+          assert (In (t_id t0) un) by (apply count_z_in; lia). apply memz_in in H. congruence. }
+        assert (OW : owners (t_id t0) (tset tb (SRep r) (comments_of kept)) = owners (t_id t0) tb) by lia.
+        rewrite OW. subst t'. split; auto.
+    + apply tget_tset_rep_small; auto.
+Qed.
+
+Theorem cstep_inv : forall st o, Inv st -> op_ok st o = true -> Inv (cstep st o).
+Proof.
+  intros [d tb] o H OK. destruct o as [o|r ph items mf ml flt|r items flt].
+  - exact (sstep_inv (d, tb) o H).
+  - apply claimer_step_inv; auto.
+  - apply unclaim_inter_step_inv; auto.
+Qed.
+
+Theorem chistory_inv : forall ops st, Inv st -> hist_ok ops st = true -> Inv (fold_left cstep ops st).
+Proof.
+  induction ops as [|o ops IH]; simpl; intros st H OK; auto.
+  apply andb_prop in OK. destruct OK as [O1 O2]. apply IH; auto. apply cstep_inv; auto.
+Qed.
+
+(* the boolean invariant the harness evaluates is the invariant *)
+Lemma nodup_zb_ok : forall l, nodup_zb l = true -> NoDup l.
+Proof.
+  induction l as [|x l IH]; simpl; intros H; [constructor|]. apply andb_prop in H. destruct H as [H1 H2].
+  constructor; auto. intro I. apply negb_true_iff in H1.
+  assert (existsb (Z.eqb x) l = true); [|congruence].
+  apply existsb_exists. exists x; split; auto. apply Z.eqb_refl.
+Qed.
+
+Lemma tget_small : forall tb s,
+  forallb (fun e : slot * list Z => match fst e with SRep _ => true | _ => (length (snd e) <=? 1)%nat end) tb = true ->
+  match s with SRep _ => True | _ => (length (tget tb s) <= 1)%nat end.
+Proof.
+  induction tb as [|[s0 l0] tb IH]; simpl; intros s H.
+  - destruct s; simpl; auto.
+  - apply andb_prop in H. destruct H as [H1 H2]. destruct (slot_eqb s0 s) eqn:E.
+    + apply slot_eqb_eq in E; subst s0. destruct s; auto; simpl in H1; apply Nat.leb_le in H1; auto.
+    + apply IH; auto.
+Qed.
+
+Theorem inv_b_ok : forall st, inv_b st = true -> Inv st.
+Proof.
+  intros [d tb] H. unfold inv_b in H. simpl in H.
+  apply andb_prop in H. destruct H as [H H3]. apply andb_prop in H. destruct H as [H1 H2].
+  split; [apply nodup_zb_ok; exact H1|]. split.
+  - intros t I C. simpl. rewrite forallb_forall in H2. specialize (H2 t I). rewrite C in H2. simpl in H2.
+    apply andb_prop in H2. destruct H2 as [A B]. apply Nat.leb_le in A. split; auto.
+    apply Bool.eqb_prop in B. rewrite B. rewrite Nat.eqb_eq. tauto.
+  - intros n. split; [apply (tget_small tb (SLead n)) | apply (tget_small tb (STrail n))]; auto.
+Qed.
+
+Lemma cstep_obs_cstep : forall st o, snd (cstep_obs st o) = cstep st o.
+Proof.
+  intros [d tb] o. destruct o as [[n start ig ind|n start ig ind|n|n]|r ph items mf ml flt|r items flt]; simpl.
+  - destruct (claim_comment (cur_of (tget tb (SLead n))) d start true ig ind) as [[x|e] d']; reflexivity.
+  - destruct (claim_comment (cur_of (tget tb (STrail n))) d start false ig ind) as [[x|e] d']; reflexivity.
+  - destruct (unclaim_comment (cur_of (tget tb (SLead n))) d) as [[x y] d']; reflexivity.
+  - destruct (unclaim_comment (cur_of (tget tb (STrail n))) d) as [[x y] d']; reflexivity.
+  - destruct (claimer_claim d ph items mf ml flt) as [[[x y]|e] d']; reflexivity.
+  - destruct (unclaim_inter d items flt) as [[[x y]|e] d']; reflexivity.
 Qed.
